@@ -37,9 +37,14 @@ CHECKS = {
             "port entry x all 206 service lists (0..4 of 5 stub services with/without prefix detectors) x tcp/udp x 34 connection "
             "shapes (first segment 1, 2, all bytes; 1 KiB boundary) exhaustively and over 3-entry tables by simulation; every "
             "generated configuration is wired by the real server.Run and every connection replayed through the real accept loop, "
-            "handle and findService; chosen stub and bytes read are compared with the specification.",
+            "handle and findService; chosen stub and bytes read are compared with the specification. Delivery.tla models the "
+            "listener side (kernel queue, receive buffers, connections aliasing them; NoAliasing, StreamIntact, EveryoneServed; the "
+            "shared-receive-buffer deviation must violate them); a sample of the configurations (all in thorough) is also served by "
+            "honeytrap's own socket listener on loopback, the datagrams delivered according to TLC's delivery schedules (groups sent "
+            "back to back to services that start reading late).",
             "Detector input is the client's first segment; clients that send nothing are not explored; stub services stand in "
-            "for real ones (routing does not depend on the service implementation).",
+            "for real ones (routing does not depend on the service implementation); the real listener cannot be stepped, a schedule is "
+            "realised by timing (12 ms late reads).",
             "TLA+ spec + TLC exhaustive/simulate generation, replay into real server.Run/findService",
             "DESIGN.md §3 C08"),
     "C19": ("model_checking",
@@ -65,9 +70,9 @@ CHECKS = {
             "TLA+ spec + TLC exhaustive/simulate generation, replay into real server.Run + bus",
             "DESIGN.md §3 C06"),
     "C07": ("model_checking",
-            "RotateFile.tla models Send/Flush (any batching)/placement with rotation to a fresh name/clock ticks/external remove and "
-            "rename; TLC checks AllKept, SizeOK, NamesDistinct, NoOverwrite and the liveness EventuallyFlushed on the strict model "
-            "and requires the two transcribed deviations to violate them; TLC enumerates all sequences of <= 2 steps over 117 batches "
+            "RotateFile.tla models Send/Flush (any batching)/placement with rotation to a name free on disk/clock ticks/external remove and "
+            "rename/Reopen (the channel closed and opened again on the same path, a full file rotated on open); TLC checks AllKept, SizeOK, NamesDistinct, NoOverwrite and the liveness EventuallyFlushed on the strict model "
+            "and requires the two transcribed deviations (and the names-from-instance-memory regression) to violate them; TLC enumerates all sequences of <= 2 steps over 117 batches "
             "of boundary lengths (14k scenarios) and samples longer ones; each is replayed on the real fschannel.OpenRotateFile/Write "
             "(several rotations per second happen naturally) and the property's predicates are evaluated on the files on disk after "
             "every step; bursts through the real FileBackend (Send, writer goroutine, 1 s flush) incl. an unopenable destination "
@@ -91,9 +96,17 @@ CHECKS = {
             "ChangeDir and the locations touched by driver operations; TLC checks Contained and CwdRooted and prints every transition "
             "(15 working directories x 7,812 paths of <= 5 components over {a, b, .., ., ''}, absolute and relative = 117k); each is "
             "one implementation test on the real filesystem.Htfs (RealPath, ChangeDir, Cwd) over a real tree with look-alike "
-            "directories outside the root; an escape is a violation, a different in-root resolution is reported as drift.",
-            "No symlinks inside the root; FTP command sequences against the running service are a second level (see DESIGN.md).",
-            "TLA+ spec + TLC exhaustive, one implementation test per model transition",
+            "directories outside the root; an escape is a violation, a different in-root resolution is reported as drift. Level 2: "
+            "FtpSession.tla models a logged-in session (tree of directories and files, working directory, RNFR/RNTO, APPE+STOR, one action "
+            "per command handler; Contained, CwdInside, TreeClosed, NoClash; exhaustive for every sequence of <= 2 (3) commands over short "
+            "paths, the unclamped-dot-dot regression must violate Contained); simulated command sequences (6-8 commands, paths of 1..4 "
+            "components) run against the real ftp service inside the real server with real passive data connections, the whole process "
+            "under strace: marker syscalls attribute every path-taking syscall to a command and every such path must lie below the root; "
+            "the sentinel jail beside the root is digested before and after; replies must not carry outside content; the reported working "
+            "directory must be a clean absolute path; reply classes, the tree below the root and listings are compared with the "
+            "specification after every command (differences inside the root are drift).",
+            "No symlinks inside the root; sessions run one at a time (syscall attribution by markers); path alphabet {a,b,f,n,..,.,''}.",
+            "TLA+ specs + TLC exhaustive/simulate, one implementation test per transition (Htfs) and session replay on the real service with a syscall trace",
             "DESIGN.md §3 C11"),
     "C03": ("model_checking",
             "Sessions.tla models K connections served by one shared service object at request/response granularity with a free "
@@ -148,9 +161,9 @@ CHECKS = {
     "C20": ("model_checking",
             "Knock.tla models probe grouping per (source, protocol class), distinct port collection, and the quiet-period report-and-"
             "remove; UniqueSet.tla the insertion-ordered set with Each-while-removing; TLC checks PortsExactlyDistinctProbed, "
-            "ReportedOncePerBurst, NoDuplicates and EachExact, and requires the four transcribed deviations to violate them; all "
+            "ReportedOncePerBurst, NoDuplicates and EachExact, and requires the transcribed deviations and the group-ignores-source-address regression to violate them; all "
             "interleaved bursts of <= 3 probes from 3 sources (exhaustive), simulated bursts of 8 and seeded bursts of up to 150 "
-            "probes from up to 4 sources are injected as real SYN / UDP / ICMP frames into one real Canary each (hooks), the real "
+            "probes from up to 4 sources (two of the three model sources sit behind one gateway: same source hardware address) are injected as real SYN / UDP / ICMP frames into one real Canary each (hooks), the real "
             "5 s quiet timer is waited for twice, and per source the union of reported ports must be exactly the distinct pairs "
             "probed, each once; every UniqueSet transition and all operation sequences up to length 4 (quick) / 6 (thorough) run on "
             "the real canary.UniqueSet with the TLC table as oracle.",
@@ -163,7 +176,7 @@ CHECKS = {
             "and the listener's SYN-ACK: one SYN|ACK acknowledging isn+1; afterwards every emitted frame is addressed back to a known "
             "connection with correct IPv4/TCP checksums and acknowledges exactly the bytes (and FIN) received from that connection; data "
             "and FIN are answered; sequence numbers never go back. TLC enumerates all client behaviours of one connection up to 5 frames "
-            "(segment lengths 1, 2, 1459, 1460, PSH, FIN with/without data) and simulates interleavings of two; they are bound to the "
+            "(segment lengths 1, 2, 1459, 1460, PSH, FIN with/without data, the client's closing ACK, RST after its FIN) and simulates interleavings of two; 20 overlap scenarios (2-4 connections, an earlier one completes its close or is reset on a decoded port while later ones go on); they are bound to the "
             "boundary ISNs 0, 1, 2^31-1, 2^31, 2^32-2, 2^32-1 and random ones, decoded and undecoded ports, injected into a real Canary "
             "(hooks), every emitted frame is decoded by the harness's own decoder, and TLC validates the recorded steps against "
             "CanaryTCP_Trace; connection events (addresses, payload = prefix containing the first pushed segment) are checked too.",
@@ -175,7 +188,7 @@ CHECKS = {
             "Ja3.tla defines the JA3 string of a hello record (decimal version, ciphers, extension types, groups, point formats in wire "
             "order, GREASE removed from the first three) and TLC checks GreaseInvariant and OrderSensitive on every generated hello; "
             "hellos are generated exhaustively over a small space and by simulation up to 40 ciphers / 20 extensions (unknown, repeated, "
-            "GREASE types, empty bodies, groups with GREASE, 0..3 point formats, with/without SNI, versions SSL3..TLS1.2), serialised by the "
+            "all 16 GREASE values, values that only look like GREASE (0xXaYa), one value in four from the whole 16-bit range, empty bodies, groups with GREASE, 0..3 point formats, with/without SNI, versions SSL3..TLS1.2), serialised by the "
             "harness (30% fragmented over several TLS records), sent to the real https service through the real server, and the digest and "
             "server name recorded in the connection's event must be MD5 of the specification's string and the SNI; one complete handshake "
             "with crypto/tls must yield a request event with the digest of the hello captured on the wire.",
@@ -193,8 +206,9 @@ CHECKS = {
             "service answers per virtual connection; bytes read per connection and frames returned per connection are compared with the "
             "specification; payloads 1..4000 bytes and single payloads 4075..65000; every codec record goes through the real "
             "MarshalBinary/UnmarshalBinary.",
-            "Lock-step driving (echo awaited before the next message), so races inside agentConnection.Read (wake-up signalling) are "
-            "not forced; UDP relay messages are covered by the codec part only.",
+            "Lock-step driving (echo awaited before the next message) and, for sequences in which the service never closes first, "
+            "pipelined driving (data back to back, streams of up to 20 data messages on 1..4 connections); races inside "
+            "agentConnection.Read (wake-up signalling) are not forced; UDP relay messages are covered by the codec part only.",
             "TLA+ specs + TLC exhaustive/simulate generation, replay against the real agent listener, codec transition replay",
             "DESIGN.md §3 C16"),
     "C18": ("model_checking",
@@ -228,7 +242,7 @@ CHECKS = {
             "Same ConnLife.tla: ReleasedWhenQuiescent (invariant) and ReturnsAfterPeerGone (liveness under weak fairness, checked by TLC "
             "without state constraint), with the three deviations found in the code (helper never exits, listener never closed, datagram "
             "connection never reports end of input) each violating one of them; the C01 scenario set, cut at every protocol stage and ending "
-            "in close, half-close, a single datagram or silence, runs against the real server in a child; after every peer is gone and the "
+            "in close, half-close, a single datagram, a peer that lingers 1.5 s before closing, or silence (each at the start, the middle and the end of every service's dialogue), runs against the real server in a child; after every peer is gone and the "
             "30 s idle timeout has passed the process must hold the same honeytrap goroutines (by creation site) and descriptors as before "
             "the first connection, no handler may still be inside handle(), and the idle process must not burn CPU.",
             "Thresholds: 33 s after the last scenario, 400 ms CPU per idle second, 2 descriptors of slack; leaks are attributed by goroutine "
